@@ -17,7 +17,7 @@ import re._parser as sp
 
 import z3
 
-from .core import (Ctx, SSeq, Unmodelled, conj, disj, el_eq, lift, mk_seq, neg, rng)
+from .core import (_br, Ctx, SSeq, Unmodelled, conj, disj, el_eq, lift, mk_seq, neg, rng)
 
 WS = (9, 10, 11, 12, 13, 32)
 WS_STR_EXTRA = (0x1c, 0x1d, 0x1e, 0x1f, 0x85, 0xa0, 0x1680, 0x2000, 0x2001, 0x2002, 0x2003, 0x2004,
@@ -38,7 +38,7 @@ def _category(av, c, is_str, ascii_flag):
                 import unicodedata
                 r = unicodedata.category(chr(c)) == 'Nd'
             else:
-                if Ctx.cur.branch(z3.UGE(c, 128)):
+                if _br(z3.UGE(c, 128)):
                     raise Unmodelled('\\d on non-ASCII symbolic str element')
                 r = rng(c, 48, 57)
         else:
@@ -46,7 +46,7 @@ def _category(av, c, is_str, ascii_flag):
         return neg(r) if av is sc.CATEGORY_NOT_DIGIT else r
     if av in (sc.CATEGORY_WORD, sc.CATEGORY_NOT_WORD):
         if uni and not isinstance(c, int):
-            if Ctx.cur.branch(z3.UGE(c, 128)):
+            if _br(z3.UGE(c, 128)):
                 raise Unmodelled('\\w on non-ASCII symbolic str element')
         if uni and isinstance(c, int) and c >= 128:
             r = chr(c).isalnum() or c == 95
@@ -131,7 +131,7 @@ class Matcher:
             return k(pos, groups)
         (op, av), rest = items[0], items[1:]
         n = len(el) if endpos is None else endpos
-        br = Ctx.cur.branch
+        br = _br
         if op in SINGLE:
             if pos >= n:
                 return None
